@@ -731,6 +731,13 @@ fn slice(out: &mut Vec<GSpec>) {
         "PUSH(\"a\") ~ DROP ~ \"b\"",
         "PUSH(\"a\"*) ~ \"b\" ~ PEEK",
         "PUSH(\"a\" ~ \"b\"*) ~ PEEK[-1..]",
+        // extreme bounds (pest takes any i32 and fails gracefully when out of range)
+        "PUSH(\"a\") ~ (PEEK[-2147483648..] | \"b\")",
+        "PUSH(\"a\") ~ (PEEK[..2147483647] | \"b\")",
+        "PUSH(\"a\") ~ PEEK[-2147483647..1]? ~ \"b\"?",
+        "PUSH(\"a\") ~ (PEEK[0..-2147483648] | \"a\")",
+        "PUSH(\"a\") ~ PEEK[2147483647..]? ~ \"b\"",
+        "PUSH(\"a\") ~ (PEEK[-2147483648..-2147483648] | \"a\")",
     ];
     for (k, b) in bodies.iter().enumerate() {
         for kd in ['N', 'A', 'C', 'X'] {
@@ -831,6 +838,44 @@ fn utf8(out: &mut Vec<GSpec>) {
     }
 }
 
+
+/// Escapes in string literals and ranges (the generator re-escapes them into Rust constants).
+fn utf8_esc(out: &mut Vec<GSpec>) {
+    let bodies = [
+        r#""\"""#,
+        r#""\\""#,
+        r#""\n""#,
+        r#""\t" ~ "\r"?"#,
+        r#""\u{e9}""#,
+        r#""\x61""#,
+        r#""a\"\\b""#,
+        r#"'\\'..'a'"#,
+        r#"'"'..'a'"#,
+        r#"'\''..'a'"#,
+        r#"^"\u{e9}a""#,
+        r#""\0" | "\'" "#,
+        r#"("\"" | "\\")* ~ "a""#,
+        r#"PUSH("\"" ~ "a"?) ~ "\n" ~ PEEK"#,
+        r#"(!"\\\"" ~ ANY)* ~ "\\"?"#,
+    ];
+    let mut rules = vec![];
+    for (k, b) in bodies.iter().enumerate() {
+        rules.push(RuleSpec::new(&format!("e{}", k), 'N', b));
+        rules.push(RuleSpec::new(&format!("a{}", k), 'A', b));
+    }
+    assert!(valid(&rules), "utf8_esc");
+    out.push(GSpec {
+        id: "utf8_esc".into(),
+        family: "utf8".into(),
+        quick: true,
+        rules,
+        alphabet: "a\"\\\n'é".into(),
+        max_len: 4,
+        max_len_thorough: 5,
+        all_forms: true,
+        ..Default::default()
+    });
+}
 
 /// F-tree: recursive and wide grammars (pair trees, traversal helpers, getters).
 fn tree(out: &mut Vec<GSpec>) {
@@ -1595,6 +1640,7 @@ pub fn all(out: &mut Vec<GSpec>) {
     }
     if want("utf8") {
         utf8(out);
+        utf8_esc(out);
     }
     if want("tree") {
         tree(out);
